@@ -38,7 +38,16 @@ func runC24(c *eng.Ctx) {
 		d := c.Fn("tsdb/encoding:NewDecbufUvarintAt")
 		retDec := eng.Return("dec", func(g *eng.Graph, rs *ast.ReturnStmt) bool { return len(rs.Results) == 1 && eng.ExprString(rs.Results[0]) == "dec" })
 		d.Dom("R1", eng.CondTest("dec.Crc32(castagnoliTable) != "), retDec)
-		d.GivenBranch("dec.Crc32(castagnoliTable) != binary.BigEndian.Uint32(b[len(b)-4:])", true).Unreachable("R1", retDec)
+		crcCond := ""
+		for _, e := range d.CondExprs() {
+			if t := eng.ExprString(e); strings.Contains(t, "Crc32(") {
+				crcCond = t
+			}
+		}
+		c.Check("R1", d.Where(), "the checksum over the entry is compared with the stored one (`… != …`)", strings.Contains(crcCond, " != ") && strings.Contains(crcCond, "binary.BigEndian.Uint32("), p.Pos(d.Body.Pos()), crcCond)
+		if crcCond != "" {
+			d.GivenBranch(crcCond, true).Unreachable("R1", retDec)
+		}
 		d.Only("R1", eng.Return("", nil), "returns either the verified buffer or a buffer carrying an error", func(l eng.Loc) bool {
 			t := nodeText(l.Node)
 			return t == "return dec" || strings.HasPrefix(t, "return Decbuf{E: ")
